@@ -21,6 +21,8 @@ MODELS_DOC = [
     "str::split_whitespace, str::replace(char, &str), str::is_empty, str::len, &s[a..] (a symbolic; a > len = panic), to_string/to_owned/clone",
     "str::find(char) / str::rfind(char) -> Option<usize> (first / last byte index), str::bytes() / str::chars() as a sequence of 8-bit codes (ASCII only), byte literals b'x'",
     "Option::map_or(default, closure) (default evaluated eagerly, closure inlined under the Some guard)",
+    "Option::unwrap_or / unwrap_or_default (String, usize, bool payloads) / unwrap_or_else / map / and_then / is_some_and (closures inlined under the Some / None guard)",
+    "str::split(char | &str literal): pieces between leftmost non-overlapping matches, empty pieces kept, at least one piece",
     "String::push_str / push / pop, [&str]::join(&str)",
     "format!/write!/bail! with `{}` and inline `{name}` of strings, chars, usize (decimal) and Display impls interpreted from source",
     "usize: + - (overflow = panic), saturating_sub, comparisons; 64-bit bit-vectors",
@@ -362,6 +364,18 @@ class Models:
             p = self.pattern_arg(args[0], node)
             c = bstr.prefixof(p, b)
             return None, option(c, StrV(bstr.substr_from(b, p.n).tight()))
+        if m == "split":
+            a = args[0]
+            if isinstance(a, CharV) and bvval(a.term) is not None:
+                pat = chr(bvval(a.term))
+            elif isinstance(a, StrV) and a.b.concrete() is not None:
+                pat = a.b.concrete()
+            else:
+                self.uns("str::split with a symbolic pattern", node)
+            if pat == "":
+                self.uns("str::split with an empty pattern", node)
+            ps, n = bstr.split(b, pat)
+            return None, VecV(n, [StrV(x) for x in ps])
         if m in ("rfind", "find"):
             if not isinstance(args[0], CharV):
                 self.uns("str::%s with a non-char pattern" % m, node)
@@ -548,6 +562,51 @@ class Models:
             return None, recv
         return NotImplemented
 
+    def option_combinator(self, recv, m, args, node):
+        it = self.it
+        is_some = recv.is_variant("Some")
+        p = recv.payload.get("Some")
+        val = p[0] if p else None
+
+        def clo(v):
+            if len(args) != 1 or not isinstance(args[0], ClosureV):
+                self.uns("Option::%s with a non-closure argument" % m, node)
+            return it.branch(is_some, lambda: it.deref(it.call_closure(args[0], [v])), lambda: None, "Option::" + m)
+        if m == "unwrap_or":
+            return args[0] if val is None else merge(is_some, val, args[0], "Option::unwrap_or")
+        if m == "unwrap_or_else":
+            if not isinstance(args[0], ClosureV):
+                self.uns("Option::unwrap_or_else with a non-closure", node)
+            d = it.branch(Not(is_some), lambda: it.deref(it.call_closure(args[0], [])), lambda: None, "Option::unwrap_or_else")
+            return d if val is None else merge(is_some, val, d, "Option::unwrap_or_else")
+        if m == "unwrap_or_default":
+            if isinstance(val, StrV):
+                d = mkstr("")
+            elif isinstance(val, IntV):
+                d = IntV.const(0)
+            elif isinstance(val, BoolV):
+                d = BoolV(FALSE)
+            else:
+                self.uns("Option::unwrap_or_default for this payload type", node)
+            return merge(is_some, val, d, "Option::unwrap_or_default")
+        if m == "map":
+            if val is None:
+                return none()
+            return option(is_some, clo(val))
+        if m == "and_then":
+            if val is None:
+                return none()
+            r = clo(val)
+            if not isinstance(r, EnumV) or r.ty != "Option":
+                self.uns("Option::and_then closure not returning Option", node)
+            return merge(is_some, r, none(), "Option::and_then")
+        if m == "is_some_and":
+            if val is None:
+                return BoolV(FALSE)
+            r = clo(val)
+            return BoolV(And(is_some, r.term))
+        self.uns("Option::" + m, node)
+
     def m_enum(self, recv, m, args, node):
         it = self.it
         if m == "clone":
@@ -563,6 +622,8 @@ class Models:
                 return None, (p[0] if p else UNIT)
             if m in ("as_ref", "as_deref"):
                 return None, recv
+            if m in ("unwrap_or", "unwrap_or_default", "unwrap_or_else", "map", "and_then", "is_some_and"):
+                return None, self.option_combinator(recv, m, args, node)
             if m == "map_or":
                 if len(args) != 2 or not isinstance(args[1], ClosureV):
                     self.uns("Option::map_or with a non-closure", node)
